@@ -50,16 +50,17 @@ Theorem event_driven_and_gillespie_have_no_set_order_loop :
 Proof. vm_compute. reflexivity. Qed.
 
 (* ... up to the loops the translator could not classify, which are exactly these
-   (each iterates over a value produced by a user-supplied function) *)
+   (each iterates over a value produced by a user-supplied function); given by the function that contains the loop,
+   not by the text of the iterated expression (a renamed local would otherwise break this file) *)
 Theorem unclassified_loops :
   filter (fun p => negb (match snd p with [] => true | _ => false end))
-         (map (fun e => (e, map (fun t => (fst (fst t), snd t)) (other_iter_where hash_iter_table e))) (entries hash_iter_table)) =
-  [ ("fast_SIR", [("_process_trans_SIR_", "trans_delay")]);
-    ("fast_nonMarkov_SIR", [("_process_trans_SIR_", "trans_delay")]);
-    ("fast_nonMarkov_SIS", [("_process_trans_SIS_nonMarkov_", "trans_delays[v]")]);
-    ("Gillespie_complex_contagion", [("Gillespie_complex_contagion", "influence_set")]);
-    ("Gillespie_Arbitrary", [("Gillespie_simple_contagion", "get_weight[transition]")]);
-    ("Gillespie_simple_contagion", [("Gillespie_simple_contagion", "get_weight[transition]")]) ].
+         (map (fun e => (e, map (fun t => fst (fst t)) (other_iter_where hash_iter_table e))) (entries hash_iter_table)) =
+  [ ("fast_SIR", ["_process_trans_SIR_"]);
+    ("fast_nonMarkov_SIR", ["_process_trans_SIR_"]);
+    ("fast_nonMarkov_SIS", ["_process_trans_SIS_nonMarkov_"]);
+    ("Gillespie_complex_contagion", ["Gillespie_complex_contagion"]);
+    ("Gillespie_Arbitrary", ["Gillespie_simple_contagion"]);
+    ("Gillespie_simple_contagion", ["Gillespie_simple_contagion"]) ].
 Proof. vm_compute. reflexivity. Qed.
 
 (* non-vacuity: the table covers the 23 public entry points, every one of them has at
